@@ -1,5 +1,5 @@
 """contracts for src/messages/radio_status.rs — communication state per ITU-R M.1371-5 3.3.7.2.2 / 3.3.7.3.2 (C16)"""
-from common import PROLOGUE, CUR
+from common import PROLOGUE, CUR, leaf_post
 
 SPEC = '''
 // ---- C16: SOTDMA / ITDMA communication state, 19 bits starting at bit q --------------------------
@@ -35,18 +35,9 @@ pub open spec fn itdma_at(o: Seq<u8>, q: int, rs: RadioStatus) -> bool {
     &&& rs->Itdma_0.keep == (fld(o, q + 18, 1) == 1)
 }
 
-pub open spec fn submsg_post(input: (&[u8], usize), t: int, r: nom::IResult<(&[u8], usize), SubMessage>) -> bool {
-    &&& leaf_ok(input, 14, r)
-    &&& forall|orig: Seq<u8>, p: int| #[trigger] at(orig, input, p) && r is Ok ==> submsg_at(orig, p, t, r->Ok_0.1)
-}
-pub open spec fn sotdma_post(data: (&[u8], usize), r: nom::IResult<(&[u8], usize), RadioStatus>) -> bool {
-    &&& leaf_ok(data, 19, r)
-    &&& forall|orig: Seq<u8>, p: int| #[trigger] at(orig, data, p) && r is Ok ==> sotdma_at(orig, p, r->Ok_0.1)
-}
-pub open spec fn itdma_post(data: (&[u8], usize), r: nom::IResult<(&[u8], usize), RadioStatus>) -> bool {
-    &&& leaf_ok(data, 19, r)
-    &&& forall|orig: Seq<u8>, p: int| #[trigger] at(orig, data, p) && r is Ok ==> itdma_at(orig, p, r->Ok_0.1)
-}
+''' + leaf_post('submsg_post', 'SubMessage', 14, 'submsg_at(orig, p, t, x)', params='t: int, ', cur='input') \
+    + leaf_post('sotdma_post', 'RadioStatus', 19, 'sotdma_at(orig, p, x)') \
+    + leaf_post('itdma_post', 'RadioStatus', 19, 'itdma_at(orig, p, x)') + '''
 /// which access scheme a message type uses when it has no selector bit: 1, 2, 4, 11 SOTDMA; 3 ITDMA
 pub open spec fn radio_post(input: (&[u8], usize), t: u8, r: nom::IResult<(&[u8], usize), RadioStatus>) -> bool {
     &&& (t == 1 || t == 2 || t == 4 || t == 11 ==> sotdma_post(input, r))
@@ -56,10 +47,7 @@ pub open spec fn radio_post(input: (&[u8], usize), t: u8, r: nom::IResult<(&[u8]
     &&& (r is Ok ==> cur_ok(r->Ok_0.0))
 }
 ''' + '''
-pub open spec fn subm_u16_post(data: (&[u8], usize), r: nom::IResult<(&[u8], usize), u16>) -> bool {
-    &&& leaf_ok(data, 14, r)
-    &&& forall|orig: Seq<u8>, p: int| #[trigger] at(orig, data, p) && r is Ok ==> r->Ok_0.1 == fld(orig, p, 14)
-}
+''' + leaf_post('subm_u16_post', 'u16', 14, 'x == v') + '''
 '''
 
 
